@@ -540,7 +540,7 @@ def specs(prop, tier):
     q = tier == "quick"
     out = []
     if prop in ("C01", "C02", "C03"):
-        lst = [("M1", 3, {}), ("M2", 3, {}), ("M4", 3, {}), ("M6", 3, {}), ("M7", 4, {}), ("M10", 3, {}), ("M12", 3, {}), ("M1", 3, dict(pops=2, transfers=1)), ("M7", 4, dict(pops=2, transfers=1))]
+        lst = [("M1", 3, {}), ("M2", 3, {}), ("M4", 3, {}), ("M6", 3, {}), ("M6S", 3, dict(junction_init=True)), ("M7", 4, {}), ("M10", 3, {}), ("M12", 3, {}), ("M1", 3, dict(pops=2, transfers=1)), ("M7", 4, dict(pops=2, transfers=1))]
         if not q:
             lst += [("M5", 3, {}), ("M8", 4, {}), ("M7", 4, dict(dt=0.5)), ("M8", 5, dict(dt=0.125))]
         if prop == "C03" and q:
